@@ -421,15 +421,6 @@ theorem typedPixels_length_le (fc sc : Option Nat) (x : Scanline × PointType) :
   | none => exact Nat.zero_le _
   | some c => simp only [List.length_map, Scanline.points_length]; exact Nat.le_refl _
 
-theorem flatMap_length_le_sum {α β : Type} (L : List α) (f : α → List β) (g : α → Nat)
-    (h : ∀ a, (f a).length ≤ g a) : (L.flatMap f).length ≤ (L.map g).sum := by
-  induction L with
-  | nil => simp
-  | cons a L ih =>
-    rw [List.flatMap_cons, List.length_append, List.map_cons, List.sum_cons]
-    have := h a
-    omega
-
 /-- The model's fuel for `pixels()` in terms of the scanline run. -/
 theorem triPixelFuel_eq (t : Tri) (style : TriStyle) (L : List (Scanline × PointType))
     (hL : triScanlineRun t style = some L) :
